@@ -96,6 +96,10 @@ class _randobj:
         
         if not hasattr(T, "_ro_init"):
             def __getattribute__(self, a):
+                if a == "rand_mode":
+                    # Whether this object is randomized as a sub-object of 
+                    # another one (it is kept by the object's model)
+                    return object.__getattribute__(self, "get_model")().rand_mode
                 ret = object.__getattribute__(self, a)
             
                 if isinstance(ret, type_base) and not is_raw_mode():
@@ -128,6 +132,9 @@ class _randobj:
                 return ret
         
             def __setattr__(self, field, val):
+                if field == "rand_mode":
+                    self.get_model().rand_mode = bool(val)
+                    return
                 try:
                     # Retrieve the field object so we can check if it's 
                     # a type_base object. This will throw an exception
